@@ -23,3 +23,5 @@ def run(ck):
     sampling.r14_float_bilinear_weights(ck, P)
     sampling.r15_mask_stride_follows_pipeline(ck, P)
     sampling.r17_cursor_step_follows_pipeline(ck, P, 'C08-R16')
+    sampling.r12_wrap_is_a_loop(ck, P, 'C08-R17')
+    sampling.r18_rotation_tiles(ck, P)
